@@ -433,7 +433,15 @@ func (x *Exec) havocRegion(st *State, sc *Scope, e Expr) {
 		if !ok {
 			sc.fail("modifies %s: not a slice", e)
 		}
-		x.havocObject(st, x.leafSorts(u.Elem(), nil), sx("sl_arr", v.T))
+		// exactly the elements of the slice get arbitrary values
+		fresh := map[string]string{}
+		for s := range x.leafSorts(u.Elem(), nil) {
+			fresh[s] = c.freshConst(mangle("H:"+s)+"_mod", x.compSort("H:"+s))
+		}
+		arr, off := sx("sl_arr", v.T), sx("sl_off", v.T)
+		x.bulkWrite(st, u.Elem(), arr, off, sx("sl_len", v.T), func(i string, lp leafPath, pre map[string]string) string {
+			return sx("select", fresh[lp.sort], applySteps(elt(arr, x.addIdx(off, i)), lp.steps))
+		})
 		return
 	}
 	if v, ok := sc.tryEval(e); ok && v.Ty != nil {
